@@ -101,6 +101,7 @@ func main() {
 	corpusSide(r)
 	vectorSide(r)
 	referenceFilesSide(r)
+	collidingValuesSide(r)
 	r.Finish()
 }
 
@@ -646,4 +647,80 @@ func genCorpus(dir string) {
 	b, _ := json.MarshalIndent(ents, "", " ")
 	os.WriteFile(filepath.Join(dir, "manifest.json"), append(b, '\n'), 0o644)
 	fmt.Printf("corpus: %d files written to %s\n", len(ents), dir)
+}
+
+// collidingValuesSide: nothing in the format forbids two valid files from
+// sharing a salt, an ephemeral share, a file key or a payload nonce (a
+// replayed random tape, a deterministic generator). Such files, written by
+// the reference, are opened one after the other with the SAME identity
+// objects in one goroutine: each must still decrypt to its plaintext.
+func collidingValuesSide(r *mon.Run) {
+	type cf struct {
+		name string
+		file []byte
+		pt   []byte
+		id   string
+	}
+	var files []cf
+	mk := func(name, id string, fileKey, nonce []byte, st refage.Stanza, n int) {
+		pt := mon.DetBytes("c05-collide-"+name, n)
+		files = append(files, cf{name, refage.BuildFile(fileKey, []refage.Stanza{st}, nonce, pt), pt, id})
+	}
+	salt := mon.DetBytes("c05-collide-salt", 16)
+	salt2 := mon.DetBytes("c05-collide-salt2", 16)
+	fk := mon.DetBytes("c05-collide-fk", 16)
+	nonce := mon.DetBytes("c05-collide-nonce", 16)
+	eph := mon.DetBytes("c05-collide-eph", 32)
+	s1 := keys.P("S1")
+	// one salt, work factors up and down, a second salt in between
+	for _, w := range []int{10, 11, 10, 12, 1, 2, 12, 11, 5, 10} {
+		mk(fmt.Sprintf("scrypt-same-salt-wf%d", w), "S1", mon.DetBytes(fmt.Sprintf("c05-collide-fk-%d-%d", w, len(files)), 16), mon.DetBytes(fmt.Sprintf("c05-collide-n-%d", len(files)), 16),
+			refage.ScryptWrap(mon.DetBytes(fmt.Sprintf("c05-collide-fk-%d-%d", w, len(files)), 16), s1.Pass, salt, w), 40+w)
+		if w%5 == 0 {
+			k := mon.DetBytes(fmt.Sprintf("c05-collide-fk2-%d", len(files)), 16)
+			mk(fmt.Sprintf("scrypt-other-salt-wf%d", w), "S1", k, nonce, refage.ScryptWrap(k, s1.Pass, salt2, w), 7)
+		}
+	}
+	// same salt AND same file key at two work factors; same everything twice
+	mk("scrypt-same-salt-same-key-wf3", "S1", fk, nonce, refage.ScryptWrap(fk, s1.Pass, salt, 3), 100)
+	mk("scrypt-same-salt-same-key-wf4", "S1", fk, nonce, refage.ScryptWrap(fk, s1.Pass, salt, 4), 100)
+	mk("scrypt-same-salt-same-key-wf4-again", "S1", fk, nonce, refage.ScryptWrap(fk, s1.Pass, salt, 4), 100)
+	// one ephemeral secret for different recipients and files; one file key and
+	// one nonce across recipient types
+	for _, n := range []string{"X1", "X2", "X1", "X3"} {
+		st, err := refage.X25519Wrap(fk, keys.P(n).Ref.(refage.X25519Key).Public(), eph)
+		if err == nil {
+			mk("x25519-same-ephemeral-"+n, n, fk, mon.DetBytes("c05-collide-nx-"+n+fmt.Sprint(len(files)), 16), st, 65536+len(files))
+		}
+	}
+	for _, n := range []string{"E1", "E2", "E1"} {
+		st, err := refage.SSHEd25519Wrap(fk, keys.P(n).Ref.(refage.EdKey).Pub, eph)
+		if err == nil {
+			mk("ssh-ed25519-same-ephemeral-"+n, n, fk, nonce, st, 300+len(files))
+		}
+	}
+	for i, n := range []string{"R1", "R5", "R1"} {
+		st, err := refage.SSHRSAWrap(fk, &keys.P(n).Ref.(refage.RSAKey).Priv.PublicKey, mon.NewRNG(1, "c05-collide-oaep"))
+		if err == nil {
+			mk(fmt.Sprintf("ssh-rsa-same-seed-%s-%d", n, i), n, fk, nonce, st, 10)
+		}
+	}
+	// twice through the list: the second pass meets every value a second time
+	for pass := 0; pass < 2; pass++ {
+		for _, f := range files {
+			res := ax.Decrypt(bytes.NewReader(f.file), false, 0, keys.P(f.id).Identity)
+			r.Eval(1)
+			r.Distinct(fmt.Sprintf("collide:%s:pass%d", f.name, pass))
+			if !res.Clean() || !bytes.Equal(res.Plain, f.pt) {
+				r.Violate("ref-file-rejected:colliding-values:"+strings.SplitN(f.name, "-wf", 2)[0],
+					fmt.Sprintf("a valid reference-written file (%s, pass %d) that shares a salt / ephemeral / file key / nonce with files opened earlier by the same identity object is not decrypted to its plaintext: %s", f.name, pass, res),
+					map[string]any{"file": f.name, "pass": pass})
+				continue
+			}
+			r.Count("colliding_value_files_decrypted", 1)
+		}
+	}
+	if r.Counter("colliding_value_files_decrypted") == 0 {
+		r.Inconclusive("no file with colliding values was decrypted")
+	}
 }
